@@ -452,14 +452,30 @@ def concretize_sparse(M, env):
             pp = tuple(I(i) for i in p)
             r = _eval_int(I(f.row(pp)), env)
             c = _eval_int(I(f.col(pp)), env)
-            v = evaluate(f.coef * R.of(f.val(pp)), env)
+            try:
+                v = evaluate(f.coef * R.of(f.val(pp)), env)
+            except KeyError:
+                D[r, c] = SKIP       # opaque reduction over a symbolic-length array (np.max in the corner rows)
+                continue
+            if D[r, c] is SKIP:
+                continue
             D[r, c] = (D[r, c] + v) if (D[r, c] is not NAN and v is not NAN) else NAN
     return D
+
+
+class _Skip:
+    def __repr__(self):
+        return 'SKIP'
+
+
+SKIP = _Skip()
 
 
 def compare(symv, realv, tol=1e-9):
     """exact where the symbolic value is rational and the real one is finite; NaN must match non-finite"""
     import math
+    if symv is SKIP:
+        return True
     if symv is NAN:
         return not math.isfinite(float(realv))
     if isinstance(symv, bool):
